@@ -6,6 +6,18 @@ mod c20;
 
 use vcore::report::Report;
 
+// ---- watchdog: the sweeps run on a worker thread and report what they are about to do; when a
+// next() call never returns the main thread reports the case as a HANG violation and exits
+pub static PROGRESS: std::sync::atomic::AtomicU64 = std::sync::atomic::AtomicU64::new(0);
+pub static CURRENT: std::sync::Mutex<String> = std::sync::Mutex::new(String::new());
+
+pub fn tick(case: impl FnOnce() -> String) {
+    PROGRESS.fetch_add(1, std::sync::atomic::Ordering::Relaxed);
+    if let Ok(mut c) = CURRENT.lock() {
+        *c = case();
+    }
+}
+
 fn main() {
     let a: Vec<String> = std::env::args().collect();
     let cmd = a.get(1).cloned().unwrap_or_default();
@@ -32,6 +44,12 @@ fn main() {
         if cfg!(debug_assertions) { "dev" } else { "release" }
     );
     let t0 = std::time::Instant::now();
+    let (tx, rx) = std::sync::mpsc::channel::<Report>();
+    let (prop_w, cfg_w, tier_w, cmd_w) = (prop.clone(), cfg.clone(), tier.clone(), cmd.clone());
+    std::thread::Builder::new()
+        .stack_size(256 << 20)
+        .spawn(move || {
+            let (prop, cfg, tier, cmd) = (prop_w, cfg_w, tier_w, cmd_w);
     let mut rep = Report::new(&prop, &cfg, &tier);
     match cmd.as_str() {
         "c13" => c13::run(&tier, &mut rep),
@@ -59,6 +77,38 @@ fn main() {
         }
         x => panic!("unknown command {x}"),
     }
+            let _ = tx.send(rep);
+        })
+        .expect("worker thread");
+    let mut last = (PROGRESS.load(std::sync::atomic::Ordering::Relaxed), std::time::Instant::now());
+    let limit = std::time::Duration::from_secs(if tier == "thorough" { 120 } else { 45 });
+    let mut rep = loop {
+        match rx.recv_timeout(std::time::Duration::from_millis(200)) {
+            Ok(r) => break r,
+            Err(std::sync::mpsc::RecvTimeoutError::Disconnected) => {
+                eprintln!("worker thread died");
+                std::process::exit(101);
+            }
+            Err(std::sync::mpsc::RecvTimeoutError::Timeout) => {
+                let p = PROGRESS.load(std::sync::atomic::Ordering::Relaxed);
+                if p != last.0 {
+                    last = (p, std::time::Instant::now());
+                } else if last.1.elapsed() > limit {
+                    let case = CURRENT.lock().map(|c| c.clone()).unwrap_or_default();
+                    let mut r = Report::new(&prop, &cfg, &tier);
+                    r.count("evaluations", p);
+                    r.violations.push(vcore::report::Violation {
+                        key: format!("HANG/{case}"),
+                        tag: "HANG".into(),
+                        case: case.clone(),
+                        detail: format!("no progress for {} s: a call into the lexer never returns", limit.as_secs()),
+                        replay: serde_json::json!({"kind": "vderive-hang", "prop": prop, "tag": "HANG", "case": case}),
+                    });
+                    break r;
+                }
+            }
+        }
+    };
     rep.counts.insert("wall_ms".into(), t0.elapsed().as_millis() as u64);
     if out.is_empty() {
         println!("{}", serde_json::to_string_pretty(&rep).unwrap());
@@ -66,4 +116,5 @@ fn main() {
         rep.write(&out);
         eprintln!("{cfg} {cmd}: evaluations={} states={} violations={} ({} ms)", rep.counts.get("evaluations").copied().unwrap_or(0), rep.counts.get("states").copied().unwrap_or(0), rep.violations.len(), t0.elapsed().as_millis());
     }
+    std::process::exit(0);
 }
